@@ -133,11 +133,15 @@ PROPS = {
     ),
     "C11": dict(
         level="exploration",
-        modules=[],
+        modules=["specs.vlandb"],
         bounded=[("bounded.c11", "run")],
-        assumes=["A7", "A9"],
-        trusted=["collapse_vlandb / expand helpers / _process_vlandb are not under a discharged contract (sorted(set()), string rendering, "
-                 "chunk comprehensions outside the VC subset): bounded only"],
+        assumes=["A3", "A7", "A9"],
+        trusted=["collapse_vlandb (and the cisco / huawei wrappers, chunk_len == 0) is proved: result == rendering of the ranges rg(S) of "
+                 "S = sorted(set(vlans)), with the lemma that a VLAN is denoted by rg(S) iff it is a member of S (so expanding the "
+                 "collapsed list gives back exactly the set) and that every range has lo <= hi; sorted(set()) is an opaque function "
+                 "with an assumed axiom (strictly increasing), '%' formatting and str(int) are opaque (A7)",
+                 "huawei_expand_vlandb / cisco_expand_vlandb (int() of substrings), _process_vlandb / vlan_diff / the swtrunk logic "
+                 "functions and the chunking comprehension are not under a discharged contract: bounded only"],
     ),
     "C16": dict(
         level="exploration",
